@@ -434,6 +434,9 @@ def execute_run(run: dict) -> dict:
         max_steps=cfg.get('max_steps', 3_000_000),
     )
 
+    if run.get('debug_items'):
+        sched.items = []
+
     def resolve(ref):
         if ref[0] in ('d', 'fl'):
             return derived.get(json.dumps(ref))
@@ -560,6 +563,7 @@ def execute_run(run: dict) -> dict:
         'engine_answers': sum(e.stats['answered'] for e in engines),
         'engine_asked': sum(e.stats['asked'] for e in engines),
         'wall': time.monotonic() - t0,
+        'items': sched.items,
     }
 
 
